@@ -15,6 +15,13 @@ impl<T> WriteMultiple<T> {
 //@|        r is Ok ==> r->Ok_0.range.start == start && r->Ok_0.values@ == values@ && r->Ok_0.wf(),
 }
 
+// connection states and TLS configuration enums of the rodbus crate (real items)
+//@item rodbus/src/client/listener.rs | ClientState | derive=Copy,Clone
+//@item rodbus/src/client/listener.rs | PortState | derive=Copy,Clone
+//@item rodbus/src/tcp/tls/mod.rs | MinTlsVersion | derive=Copy,Clone
+//@item rodbus/src/tcp/tls/mod.rs | CertificateMode | derive=Copy,Clone
+//@item rodbus/src/tcp/tls/mod.rs | TlsError | derive=
+
 // what the FFI crate asked the channel to do, in order (every attempt is logged, whatever the result)
 pub enum FfiCall {
     Enable, Disable, SetDecodeLevel(DecodeLevel),
